@@ -128,7 +128,7 @@ def gen_reads(rng, case, sample, chrom, n, rgs_of_sample):
 def decorate(rng, case, alns):
     """secondary / supplementary / duplicate / placed-unmapped records, BX tags, stale HP/PS/PC tags."""
     extra = []
-    chroms = case["chroms"]
+    chroms = case.get("normal_chroms") or case["chroms"]
     for a in list(alns):
         x = rng.random()
         if x < 0.10:                             # secondary copy
@@ -154,9 +154,10 @@ def decorate(rng, case, alns):
                 extra.append(b)
         elif x < 0.30:
             a["flag"] |= 0x400                   # duplicate
-        elif x < 0.34:                           # placed but unmapped (e.g. mate of a mapped read)
+        elif x < 0.38:                           # placed but unmapped (mate stored under its partner's coordinates)
             b = dict(name=a["name"] + "_um", chrom=a["chrom"], start=a["start"], cigar=[], seq=a["seq"][:20],
-                     quals=[30] * len(a["seq"][:20]), flag=0x4, mapq=0, rg=a["rg"], tags=[], sample=a["sample"])
+                     quals=[30] * len(a["seq"][:20]), flag=rng.choice([0x4, 0x1 | 0x4 | 0x80]), mapq=0, rg=a["rg"],
+                     tags=[], sample=a["sample"], mate_start=a["start"])
             extra.append(b)
     alns = alns + extra
     # BX tags: barcodes are namespaced per sample; some barcodes shared by several reads
@@ -236,17 +237,36 @@ def gen_regions(rng, case, kind):
                            [f"{c}:{a}-{b}", f"{c}:{a}-{b}"]])
     if kind == "chrom-order":
         return list(reversed(chroms))
+    if kind == "special":                        # regions covering the contig that holds only unmapped records
+        if "chrU" not in chroms:
+            return [c]
+        other = [x for x in chroms if x != "chrU"]
+        o = rng.choice(other)
+        return rng.choice([["chrU"], [o, "chrU"], ["chrU", o], [f"chrU:1-{L['chrU']}"], ["chrU:1"],
+                           [f"chrU:1-{L['chrU'] // 2}", f"chrU:{L['chrU'] // 2 + 1}-{L['chrU']}"], list(chroms)])
     return [c]
 
 
 # ------------------------------------------------------------------------------------------ whole case
-def gen_case(rng, region_kind=None, big=False):
+def gen_case(rng, region_kind=None, big=False, special=None):
+    """special: None (random) | "unmapped-only-last" | "unmapped-only-middle" | "none"."""
     ploidy = rng.choice([2, 2, 2, 3, 4])
     nchrom = rng.choice([1, 2, 2, 3])
     chroms = ["chrA", "chrB", "chrC"][:nchrom]
+    normal = list(chroms)
+    # special contigs: chrU holds only placed-but-unmapped records (mates stored under the coordinates of a
+    # filtered partner), chrE holds no record at all; anywhere in the header, also as last contig
+    if special is None:
+        special = rng.choice(["none"] * 5 + ["unmapped-only-last", "unmapped-only-middle", "unmapped-only-middle"])
+    if special == "unmapped-only-last":
+        chroms = chroms + ["chrU"]
+    elif special == "unmapped-only-middle":
+        chroms.insert(rng.randrange(len(chroms)), "chrU")
+    if rng.random() < 0.2:
+        chroms.insert(rng.randrange(len(chroms) + (0 if special == "unmapped-only-last" else 1)), "chrE")
     samples = ["S1", "S2", "S3"][:rng.choice([1, 1, 2, 3])]
     case = {"ploidy": ploidy, "chroms": chroms, "samples": samples, "ref": {}, "variants": {}, "calls": {},
-            "bx": rng.random() < 0.6}
+            "bx": rng.random() < 0.6, "normal_chroms": normal}
     for c in chroms:
         nv = 0 if rng.random() < 0.08 else rng.randint(3, 12 if big else 9)
         L = 300 + nv * rng.randint(60, 110)
@@ -270,19 +290,37 @@ def gen_case(rng, region_kind=None, big=False):
             rgs_of[s] = ids
             rgs += [{"ID": i, "SM": s} for i in ids]
     alns = []
-    empty_chrom = rng.choice(chroms) if (nchrom > 1 and rng.random() < 0.1) else None
+    empty_chrom = rng.choice(normal) if (nchrom > 1 and rng.random() < 0.1) else None
+    case["normal_chroms"] = [c for c in normal if c != empty_chrom]
     for s in bam_samples:
         for c in chroms:
-            if c == empty_chrom:
+            if c == empty_chrom or c in ("chrU", "chrE"):
                 continue
             n = rng.randint(3, 16 if big else 9)
             alns += gen_reads(rng, case, s, c, n, rgs_of.get(s))
     if header_rg and not ignore_rg and rng.random() < 0.2:   # a read group of a sample that is not in the VCF
         rgs.append({"ID": "rgX", "SM": "SX"})
         case["calls"]["SX"] = case["calls"][samples[0]]
-        alns += gen_reads(rng, case, "SX", chroms[0], 3, ["rgX"])
+        alns += gen_reads(rng, case, "SX", normal[0], 3, ["rgX"])
         del case["calls"]["SX"]
     alns = decorate(rng, case, alns)
+    if "chrU" in chroms:
+        LU = len(case["ref"]["chrU"])
+        for k in range(rng.randint(1, 4)):
+            sm = rng.choice(bam_samples)
+            seq = synth.random_seq(rng, rng.randint(15, 40))
+            st = rng.randint(0, LU - 2)
+            paired = rng.random() < 0.6      # unmapped mate of a (filtered) mapped read: mate fields point to itself
+            u = dict(name=f"{sm}_chrU_um{k}", chrom="chrU", start=st, cigar=[], seq=seq, quals=[30] * len(seq),
+                     flag=(0x1 | 0x4 | rng.choice([0x40, 0x80])) if paired else 0x4, mapq=0,
+                     rg=(rgs_of.get(sm) or [None])[0], tags=[], sample=sm)
+            if paired:
+                u["mate_start"] = st
+            if rng.random() < 0.4:
+                u["tags"] += [["HP", rng.randint(1, 2)], ["PS", rng.randint(1, 999)]]
+            if case["bx"] and rng.random() < 0.4:
+                u["tags"].append(["BX", f"BX{sm}-0"])
+            alns.append(u)
     tail = []
     for k in range(rng.choice([0, 0, 1, 3])):
         s = rng.choice(bam_samples)
